@@ -1,7 +1,7 @@
 (* C02 - Lookup returns a verifying proof of the latest value for every published label. *)
 From Coq Require Import List Bool NArith.
 From Akd Require Import NodeLabel Hashing Tree Directory Verify DirFacts.
-From Akd Require DirRefine NodeLabelFacts.
+From Akd Require DirRefine NodeLabelFacts LookupComplete.
 Import ListNotations.
 Open Scope N_scope.
 
@@ -46,3 +46,32 @@ Theorem C02_invariant_reachable : forall cfg ck (vl : bytes -> bool -> N -> opti
   forall reqs, DirRefine.DirInv vl (DirRefine.run_publishes cfg ck vl dir_new reqs).
 Proof. exact DirRefine.invariant_reachable. Qed.
 Print Assumptions C02_invariant_reachable.
+
+(* END TO END: in every state reachable by publish requests, the proof returned for a published
+   label is accepted by the client's verifier (lookup_verify) against the returned epoch hash and
+   yields exactly the label's latest (epoch, version, value).  Premises: the properties of the VRF
+   layer (C18): outputs are well-formed 256-bit labels, do not collide, and the server's proof
+   verifies under the public key to the output. *)
+Theorem C02_lookup_accepted_and_latest :
+  forall cfg ck (vl : bytes -> bool -> N -> option nlabel) (vp : bytes -> bool -> N -> option bytes)
+         (vc : bytes -> bytes -> bytes -> option bytes) pk,
+  canonical (c_empty_label cfg) = false ->
+  (forall l f v nl, vl l f v = Some nl -> NodeLabelFacts.WF nl /\ canonical nl = true /\ llen nl = 256) ->
+  (forall l f v l' f' v' nl, vl l f v = Some nl -> vl l' f' v' = Some nl -> l = l' /\ f = f' /\ v = v') ->
+  (forall l f v nl pr, vl l f v = Some nl -> vp l f v = Some pr -> vc pk pr (label_input_hash cfg l f v) = Some (lval nl)) ->
+  forall st l p eh, LookupComplete.DirInv2 cfg ck vl st -> lookup cfg ck vl vp st l = DOk (p, eh) ->
+  exists s, latest_state (d_states st) l (d_epoch st) = Some s /\
+            lookup_verify cfg vc pk (snd eh) (fst eh) l p = Some (VRes (vr_epoch s) (vr_version s) (vr_value s)).
+Proof. exact LookupComplete.lookup_complete. Qed.
+Print Assumptions C02_lookup_accepted_and_latest.
+
+Theorem C02_invariant2_reachable :
+  forall cfg ck (vl : bytes -> bool -> N -> option nlabel) (vp : bytes -> bool -> N -> option bytes)
+         (vc : bytes -> bytes -> bytes -> option bytes) pk,
+  canonical (c_empty_label cfg) = false ->
+  (forall l f v nl, vl l f v = Some nl -> NodeLabelFacts.WF nl /\ canonical nl = true /\ llen nl = 256) ->
+  (forall l f v l' f' v' nl, vl l f v = Some nl -> vl l' f' v' = Some nl -> l = l' /\ f = f' /\ v = v') ->
+  (forall l f v nl pr, vl l f v = Some nl -> vp l f v = Some pr -> vc pk pr (label_input_hash cfg l f v) = Some (lval nl)) ->
+  forall reqs, LookupComplete.DirInv2 cfg ck vl (DirRefine.run_publishes cfg ck vl dir_new reqs).
+Proof. exact LookupComplete.inv2_reachable. Qed.
+Print Assumptions C02_invariant2_reachable.
